@@ -78,7 +78,7 @@ def generate(rng, index, tier):
     focus = index % 4
     nthreads = rng.pick([2, 2, 3, 3, 4, 6])
     mix = {'bsd': 3, 'path': 4, 'mach': 2, 'turnstile': 1, 'dyld': 2, 'perf': 2, 'tracedom': 6, 'lookup': 2, 'gstr': 2,
-           'undecoded': 1, 'unknown': 1, 'single': 1}
+           'undecoded': 1, 'unknown': 1, 'single': 1, 'anydecodable': 1}
     if focus == 0:
         mix = {'tracedom': 8, 'path': 2, 'bsd': 1}
     elif focus == 1:
@@ -121,7 +121,11 @@ def generate(rng, index, tier):
                 threads[a]['ops'].insert(rng.randrange(len(threads[a]['ops']) + 1),
                                          {'k': 'one', 'name': 'TRACE_STRING_PROC_EXIT', 'q': 0, 'a': list(namewords)})
                 pert = {'k': 'one', 'name': 'PERF_THD_Data', 'q': 0, 'a': [pid_, threads[a]['tid'], 0, 0]}
-            elif r3 < 0.3:
+            elif r3 < 0.35 and [op for op in threads[b]['ops'] if op.get('k') == 'seq' and op['ops'] and op['ops'][0].get('name') == 'TRACE_DATA_NEWTHREAD']:
+                nt_ = rng.pick([op for op in threads[b]['ops'] if op.get('k') == 'seq' and op['ops'] and op['ops'][0].get('name') == 'TRACE_DATA_NEWTHREAD'])['ops'][0]
+                # this thread ends with the very pid and unique id that a peer's new-thread record carries
+                pert = {'k': 'one', 'name': 'TRACE_DATA_THREAD_TERMINATE_PID', 'q': 0, 'a': [nt_['a'][1], nt_['a'][3], 0, 0]}
+            elif r3 < 0.45:
                 # a new-thread record (exec-copy flag set or not) that names a LIVE peer, emitted inside an open window of its thread
                 nt = worlds.op_newthread(rng, threads[b]['tid'], 71000 + rng.randrange(99), rng.ident())
                 nt['ops'][0]['a'][2] = rng.pick([0, 1, 1, 7])
